@@ -294,6 +294,20 @@ class Interp:
             return c
         return self.fork([c, z3.Not(c)]) == 0
 
+    def provably_false(self, cond) -> bool:
+        """is `cond` false on every model of the path condition?  (in-process, short budget; 'no' also when undecided)"""
+        if isinstance(cond, bool):
+            return not cond
+        c = simp(zbool(cond))
+        if isinstance(c, bool):
+            return not c
+        s = z3.Solver()
+        s.set('timeout', 2000)
+        for x in self.pc:
+            s.add(x)
+        s.add(c)
+        return s.check() == z3.unsat
+
     def oblige(self, kind, label, goal, note=''):
         base = f'{kind}:{label}' if label else kind
         n = self.ob_counter.get(base, 0)
@@ -1468,7 +1482,17 @@ class Interp:
                         if x in '-0123456789':
                             raise Unsupported('digit membership in str(int)')
                     else:
-                        acc = _or(acc, z3.Contains(p[1], z3.StringVal(x)))
+                        j = self.pipes.joins.get(p[1].get_id()) if is_sym(p[1]) else None
+                        if j is not None:
+                            # a character occurs in sep.join(P) iff it occurs in an element of P, or in the separator and P has
+                            # at least two elements
+                            pipe, sep, _ = j
+                            from .loops import _pointwise
+                            inside = self.pipes.observable(pipe.with_stage('filter', _pointwise(self, lambda v, x=x: self.contains(v, x))), 'ne')
+                            between = simp(self.pipes.observable(pipe, 'len') >= 2) if x in sep else False
+                            acc = _or(acc, _or(inside, between))
+                        else:
+                            acc = _or(acc, z3.Contains(p[1], z3.StringVal(x)))
                 return acc
             return simp(z3.Contains(to_z3_string(container), to_z3_string(x)))
         from .seq import SSeq
@@ -1658,6 +1682,10 @@ class Interp:
     def get_item(self, obj, key):
         if self.recording is not None and isinstance(obj, XList):
             self.read_lists.append(obj)
+        if type(obj).__name__ == 'PartialSplit':
+            if isinstance(key, int) and not isinstance(key, bool) and 0 <= key < len(obj.known):
+                return obj.known[key]
+            raise Unsupported('a piece of a split text beyond the part that is known')
         if isinstance(obj, dict):
             return self.dict_get(obj, key, None, True)
         if isinstance(obj, (list, tuple)):
